@@ -173,10 +173,15 @@ func (t *tally) add(classes []string) {
 
 // need fails the test as INCONCLUSIVE when an essential class is (almost) never produced.
 func (t *tally) need(tt *testing.T, min map[string]float64) {
-	if tt.Failed() || t.n < 100 {
+	if tt.Failed() || t.n < 500 {
 		return // a failing run stops early; tiny debug runs carry no statistics
 	}
-	var bad []string
+	var bad, all []string
+	for c, f := range min {
+		all = append(all, fmt.Sprintf("%s=%.1f%%(min %.0f%%)", c, 100*float64(t.c[c])/float64(t.n), 100*f))
+	}
+	sort.Strings(all)
+	tt.Logf("generator health over %d cases: %s", t.n, strings.Join(all, " "))
 	for c, f := range min {
 		if float64(t.c[c]) < f*float64(t.n) {
 			bad = append(bad, fmt.Sprintf("%s %d/%d (< %.0f%%)", c, t.c[c], t.n, 100*f))
@@ -433,7 +438,7 @@ func TestC24_RoundTrip(t *testing.T) {
 		"root:exschemapath.Root": 0.15, "root:exschemapath.ExampleMessage": 0.15, "root:gribi_aft.Device": 0.15,
 		"nontrivial": 0.20, "has-list": 0.30, "has-uint": 0.25, "has-uintvalue": 0.08, "has-uint-key": 0.15, "has-string-key": 0.15,
 		"has-leaflist": 0.05, "has-union-leaflist": 0.05, "has-union-enum": 0.02, "has-enum": 0.08, "has-bytes": 0.06,
-		"has-nested-list": 0.08, "has-multi-entry-list": 0.10, "has-container": 0.15, "has-container-in-list": 0.04,
+		"has-nested-list": 0.08, "has-multi-entry-list": 0.10, "has-container": 0.15, "has-container-in-list": 0.03,
 		"roundtrip-full-ok": 0.10,
 	})
 }
